@@ -1020,6 +1020,19 @@ fn convert(v: V, t: &Ty) -> R<V> {
             V::Str(Arc::new(c.to_string().into_bytes()))
         }
         (v @ V::Str(_), Ty::Str) => v,
+        // string([]byte): the bytes of the slice (spec: Conversions to and from a string type)
+        (V::Slice(None), Ty::Str) => V::Str(Arc::new(Vec::new())),
+        (V::Slice(Some(sl)), Ty::Str) => {
+            let b = sl.backing.lock().unwrap();
+            let mut bytes = Vec::with_capacity(sl.len);
+            for e in &b[sl.off..sl.off + sl.len] {
+                match e {
+                    V::Int(_, x) => bytes.push(*x as u8),
+                    _ => return unsup("string(slice) of non-bytes"),
+                }
+            }
+            V::Str(Arc::new(bytes))
+        }
         (v @ V::Bool(_), Ty::Bool) => v,
         (v, _) => v,
     })
